@@ -13,7 +13,8 @@ def format_timestamp(timestamp: int) -> str:
     :param timestamp: Unix timestamp (seconds)
     """
     dt = datetime.fromtimestamp(timestamp, timezone.utc)
-    return dt.strftime('%Y-%m-%dT%H:%M:%SZ')
+    # NOTE: `%Y` is not zero-padded on every platform (glibc renders year 999 as '999'), RFC 3339 requires four digits
+    return f'{dt.year:04d}' + dt.strftime('-%m-%dT%H:%M:%SZ')
 
 
 class MichelsonFormatterError(ValueError):
